@@ -6,6 +6,7 @@ mod sc_await;
 mod sc_chan;
 mod sc_glitch;
 mod sc_lock;
+mod sc_memolock;
 mod sc_read;
 mod sc_sig;
 mod sc_stress;
@@ -14,7 +15,10 @@ use vsexp::{Lst, Num, Sexp};
 
 fn c19(case: &Sexp) -> Sexp {
     match case.at(0).num() {
-        1 => sc_await::run(case),
+        1 => sc_await::run(case, false),
+        10 => sc_await::run(case, true),
+        11 => sc_memolock::run(case),
+        13 => sc_memolock::run_immediate(case),
         2 => sc_chan::run(case),
         3 => sc_sig::run(case),
         4 => sc_glitch::run(case),
